@@ -127,6 +127,66 @@ static void collect_now(void) {
   vh_count("forced_collections");
 }
 
+/* ---------- an owner whose Assign makes a deep copy ----------
+** The documented convention for a type that owns sub-objects: Assign builds its own copies of them, the destructor
+** deletes them.  copy(owner) therefore allocates managed objects while the copy is being built, and a threshold
+** collection may land in the middle: the children the half-built copy already holds are finalised by nobody but
+** their owner -- once. */
+enum { FAM_MAX = 12 };
+struct PFam { int64_t n; int64_t ids[FAM_MAX]; var kids[FAM_MAX]; };
+static __thread vh_rng* fam_rng;
+static void PFam_Assign(var self, var obj) {
+  struct PFam* p = self; struct PFam* o = obj;
+  for (int64_t i = 0; i < p->n; i++) { del(p->kids[i]); }
+  p->n = 0;
+  for (int64_t i = 0; i < o->n; i++) {
+    int64_t id = fresh_id();
+    var k = new(PNode, $I(id));
+    blk_record(k, id);
+    p->ids[i] = id; p->kids[i] = k; p->n = i + 1;
+    int junk = (int)vh_below(fam_rng, 30);
+    for (int j = 0; j < junk; j++) { var g = new(Int, $I(j)); (void)g; }
+  }
+}
+static void PFam_Del(var self) {
+  struct PFam* p = self;
+  for (int64_t i = 0; i < p->n; i++) { del(p->kids[i]); }
+  p->n = 0;
+}
+static var PFam = Cello(PFam, Instance(Assign, PFam_Assign), Instance(New, NULL, PFam_Del));
+
+static void family_case(vh_rng* r, const char* who) {
+  fam_rng = r;
+  struct PFam tmpl; memset(&tmpl, 0, sizeof tmpl);
+  tmpl.n = 2 + (int64_t)vh_below(r, FAM_MAX - 1);
+  volatile var src = new(PFam);
+  assign(src, &tmpl);                         /* builds the source's own children (the template has none to look at) */
+  struct PFam* s0 = src;
+  volatile var c = copy(src);
+  struct PFam* p = c;
+  vh_op("%s copy of an owner of %" PRId64 " deep-copied children", who, s0->n);
+  vh_evals(3);
+  int ok = p->n == s0->n;
+  for (int64_t i = 0; ok && i < s0->n; i++) {
+    if (mo_state[s0->ids[i]] != MO_CONSTRUCTED || mo_state[p->ids[i]] != MO_CONSTRUCTED) {
+      vh_violation("C06:copy:child-of-a-deep-copy-finalised-while-owned", "child %" PRId64 " of %s (id %" PRId64 ") is in state %d right after copy()", i,
+                   mo_state[s0->ids[i]] != MO_CONSTRUCTED ? "the source" : "the copy", mo_state[s0->ids[i]] != MO_CONSTRUCTED ? s0->ids[i] : p->ids[i],
+                   mo_state[s0->ids[i]] != MO_CONSTRUCTED ? mo_state[s0->ids[i]] : mo_state[p->ids[i]]);
+      ok = 0;
+    }
+  }
+  if (ok) {
+    int how = (int)vh_below(r, 3);
+    int64_t ids[FAM_MAX]; int64_t n = p->n;
+    memcpy(ids, p->ids, sizeof ids);
+    if (how == 0) { del(c); for (int64_t i = 0; i < n; i++) { expect_released(ids[i], "del-of-a-deep-copy"); } vh_count("deep_copies_deleted_by_hand"); }
+    else if (how == 1) { collect_now(); for (int64_t i = 0; i < n; i++) { vh_eval(); if (mo_state[ids[i]] != MO_CONSTRUCTED) { vh_violation("C06:copy:child-of-a-deep-copy-finalised-while-owned", "child id %" PRId64 " of a held copy is in state %d after a collection", ids[i], mo_state[ids[i]]); break; } } }
+    /* otherwise: both owners become garbage; the collector finalises owner and children, each once (ledger) */
+  }
+  vh_count("deep_copies_of_owners");
+  c = NULL; src = NULL;
+}
+
 /* ---------- the mutator ---------- */
 
 static void run_ops(vh_rng* r, struct world* w, int nops, const char* who) {
@@ -230,6 +290,8 @@ static void run_ops(vh_rng* r, struct world* w, int nops, const char* who) {
       vh_op("%s garbage container of %d boxes", who, n);
       vh_count("containers_of_boxes");
       c = NULL;
+    } else if (roll < 63 && !w->stopped) {
+      family_case(r, who);
     } else if (roll < 72) {
       if (h->p) { delete_held(h, w->stopped ? "-inside-stop-window" : ""); if (w->stopped) { vh_count("deletions_inside_stop_window"); } }
     } else if (roll < 80 && !w->stopped) {
